@@ -145,7 +145,7 @@ func (s *ServerDnsListener) closeConnection(u *userConnection) error {
 	s.usersLock.Lock()
 	defer s.usersLock.Unlock()
 
-	_, err := s.validateAndGetUser(u.UserId, u.remoteAddress)
+	current, err := s.validateAndGetUser(u.UserId, u.remoteAddress)
 	if err == commands.BadUser {
 		// Connection already closed
 		return nil
@@ -154,6 +154,11 @@ func (s *ServerDnsListener) closeConnection(u *userConnection) error {
 		return nil
 	} else if err == commands.BadConn {
 		// Connection already closed
+		return nil
+	}
+
+	if current != u {
+		// The slot has been re-used by a newer session (possibly from the same address): not ours to close
 		return nil
 	}
 
